@@ -1,7 +1,7 @@
 (* Properties/C12.v — Only the matching response is accepted over UDP. *)
 From RsdnsModel Require Import Base Cursor Names Labels Header Tracker RData Reader Client.
 From RsdnsModel.Spec Require Import NameText WireName.
-From RsdnsModel.Proofs Require Import NameOrder ClientProofs MessageRT AcceptComplete.
+From RsdnsModel.Proofs Require Import NameOrder ClientProofs MessageRT AcceptComplete TimedProofs.
 Open Scope N_scope.
 
 (* [std] selects the leaves translated from the blocking client or from the async template.
@@ -22,6 +22,12 @@ Proof. exact accept_sound. Qed.
 Theorem C12_rejects_silently : forall std id qname qtype qclass d,
   match accept_datagram std id qname qtype qclass d with Err _ => False | _ => True end.
 Proof. exact accept_never_errs. Qed.
+
+(* stronger: on EVERY delivered byte string the filter says accept (with the datagram's flags) or
+   continue — no error, no panic, no undefined behaviour, for both client families *)
+Theorem C12_filter_total : forall std id qname qtype qclass d,
+  exists o, accept_datagram std id qname qtype qclass d = Ok o.
+Proof. exact accept_total. Qed.
 
 (* for every finite sequence of delivered datagrams the loop returns the FIRST accepted one,
    byte for byte, and every datagram before it was skipped *)
